@@ -112,6 +112,22 @@ pub fn build_session(c: &Case, corp: &corpus::Corpus) -> Vec<Cmd> {
     let mut last_game: Option<Game> = None;
     for (sel, g, ent) in &c.cmds {
         let mut e = Entropy::new(ent);
+        // "take back": the previous command again with the last 1..3 moves dropped
+        if *sel == 4 && last_game.as_ref().map_or(false, |g| !g.moves.is_empty()) {
+            let mut game = last_game.clone().unwrap();
+            for _ in 0..(1 + e.pick(3)).min(game.moves.len()) {
+                game.undo();
+            }
+            let moves = game.moves_uci();
+            let mut text = if game.start == Pos::startpos() { "position startpos".to_string() } else { format!("position fen {}", game.start.to_fen()) };
+            if !moves.is_empty() {
+                text.push_str(" moves ");
+                text.push_str(&moves.join(" "));
+            }
+            last_game = Some(game.clone());
+            out.push(Cmd { text, accept: Some(game), is_position: true, classes: vec!["previous-command-shortened"] });
+            continue;
+        }
         // "extend the previous command": same start, the same moves plus 0..3 more
         if (*sel == 2 || *sel == 3) && last_game.is_some() {
             let mut game = last_game.clone().unwrap();
@@ -409,6 +425,40 @@ pub fn run(ctx: &Ctx) -> Report {
         rep.sample(|| json!({"layer": "in-process", "commands": cmds.iter().map(|c| format!("{} => {}", short(&c.text), if !c.is_position { "n/a" } else if c.accept.is_some() { "accept" } else { "refuse" })).collect::<Vec<_>>()}));
         run_inprocess(&cmds, rep)
     });
+    // very long legal games (knight shuffles, then a short tail with a forced answer): the
+    // position command line is several kilobytes long
+    if ctx.shard_index() < 4 {
+        let plies = [820usize, 1000, 1644, 3000][ctx.shard_index()];
+        let mut game = Game::new(Pos::startpos());
+        let cyc = ["g1f3", "g8f6", "f3g1", "f6g8", "b1c3", "b8c6", "c3b1", "c6b8"];
+        let mut i = 0;
+        while game.moves.len() + 3 < plies || game.moves.len() % 2 == 1 || i % 4 != 0 {
+            let m = game.cur.find_legal(cyc[i % 8]).unwrap();
+            game.play(m);
+            i += 1;
+        }
+        for u in ["f2f3", "e7e5", "g2g4"] {
+            let m = game.cur.find_legal(u).unwrap();
+            game.play(m);
+        }
+        let text = format!("position startpos moves {}", game.moves_uci().join(" "));
+        let cmds = vec![
+            Cmd { text: "position startpos moves e2e4".into(), accept: Some({ let mut g = Game::new(Pos::startpos()); let m = g.cur.find_legal("e2e4").unwrap(); g.play(m); g }), is_position: true, classes: vec!["plain"] },
+            Cmd { text, accept: Some(game), is_position: true, classes: vec!["very-long-game"] },
+        ];
+        rep.class("layer:process");
+        rep.class("cmd:very-long-game");
+        rep.nontrivial(o::hash_str(&format!("long-game-{plies}")));
+        for r in [run_inprocess(&cmds, &mut rep), run_process(ctx, &cmds, &mut rep)] {
+            if let Err(v) = r {
+                if let Some(k) = ctx.is_known(&v.sig) {
+                    rep.known(&v.sig, &k.text);
+                } else {
+                    rep.violation(v);
+                }
+            }
+        }
+    }
     let cases = ctx.tier.pick(480, 8000) / ctx.shard_count() as u32;
     run_prop(ctx, "c08b", cases, 60, strategy(), &mut rep, |c, rep| {
         let cmds = build_session(c, &corp);
@@ -465,7 +515,7 @@ pub fn parse_position(text: &str) -> Option<Game> {
 }
 
 pub const LEVEL: &str = "exploration";
-pub const RULE: &str = "UCI sessions of 1..8 commands from {position startpos|fen F [moves ...] (F in 6-field or 4-field form), the previous position command again or extended by 1..3 more moves (as a GUI re-sends a growing game), ucinewgame, isready}; move lists are legal games (up to 60 plies, special-move-weighted so castling, e.p. and all promotion suffixes occur as strings) and, in ~1/3 of the position commands, one move is corrupted (pseudo-legal but leaves the king in check, opponent's move, move of a missing piece, promotion without suffix, suffix on a non-promotion, uppercase, 0000, O-O, e1h1, e2, e2e9, z9z9 - each verified by the oracle not to be legal there). Layer a (in-process session, hook H4): after EVERY command the session board == the model (last accepted position; startpos initially and after ucinewgame) in all components, its legal moves/check status == oracle, key == key of the oracle FEN, earlier positions of the accepted game remembered, and Err returned exactly for corrupted position commands. Layer b (real binary): after every position/ucinewgame command a 'go nodes 2000' probe's bestmove must be legal in the model position (probes whose move is also legal in the previous position are counted as weak). Non-trivial = session with a special move in a list, a corruption, or more than one command; distinct by session text.";
+pub const RULE: &str = "UCI sessions of 1..8 commands from {position startpos|fen F [moves ...] (F in 6-field or 4-field form), the previous position command again, extended by 1..3 more moves (as a GUI re-sends a growing game) or shortened by 1..3 moves (take-back), ucinewgame, isready}; move lists are legal games (up to 60 plies, special-move-weighted so castling, e.p. and all promotion suffixes occur as strings) and, in ~1/3 of the position commands, one move is corrupted (pseudo-legal but leaves the king in check, opponent's move, move of a missing piece, promotion without suffix, suffix on a non-promotion, uppercase, 0000, O-O, e1h1, e2, e2e9, z9z9 - each verified by the oracle not to be legal there). Layer a (in-process session, hook H4): after EVERY command the session board == the model (last accepted position; startpos initially and after ucinewgame) in all components, its legal moves/check status == oracle, key == key of the oracle FEN, earlier positions of the accepted game remembered, and Err returned exactly for corrupted position commands. Plus four very long legal games (820..3000 plies, command lines of 4-15 kB) in both layers. Layer b (real binary): after every position/ucinewgame command a 'go nodes 2000' probe's bestmove must be legal in the model position (probes whose move is also legal in the previous position are counted as weak). Non-trivial = session with a special move in a list, a corruption, or more than one command; distinct by session text.";
 pub const ASSUMPTIONS: &[&str] = &[
     "rules oracle + session model (last accepted position)",
     "shapes whose meaning the statement leaves open (junk where 'moves' belongs, empty 'moves' tail) are not generated here; C15 sends them and asserts liveness only",
